@@ -37,6 +37,17 @@ def replay(ctx, binary, sub, cases, stem):
     return summ[0], [o for o in out if o["kind"] == "mismatch"], [o for o in out if o["kind"] == "unbuildable"]
 
 
+def replay_checked(ctx, sub, cases, stem):
+    """Thorough tier: the same generated cases against a build with overflow checks and debug assertions."""
+    if ctx.quick():
+        return []
+    binary = ctx.build("checked", "mvh_cont")
+    summ, mism, unb = replay(ctx, binary, sub, cases, stem + "_checked")
+    ctx.traces += summ["cases"] - len(unb)
+    ctx.extra["checked_profile_replayed"] = summ["cases"]
+    return mism
+
+
 def validate(ctx, module, tpath, n_events, xmx="8g"):
     """Trace validation; returns the list of rejected (1-based) event indices."""
     t = ctx.tlc(module, env={"TRACE": tpath}, workers=1, count=False, deque=True, xmx=xmx)
@@ -77,6 +88,12 @@ def round_trip_check(ctx, pid, binary, mc_module, gen_cfg, trace_module, fmt, ac
         sig.update(describe_case(c))
         sig["got"] = shrink(o["got"], 500)
         ctx.violation(sig, {"case": c, "what": o["what"], "got": shrink(o["got"], 20000)})
+    for o in replay_checked(ctx, fmt + "-replay", cases, fmt):
+        c = cases[o["i"]]
+        sig = {"dir": "spec->impl", "profile": "checked", "what": o["what"]}
+        sig.update(describe_case(c))
+        sig["got"] = shrink(o["got"], 500)
+        ctx.violation(sig, {"case": c, "what": o["what"], "got": shrink(o["got"], 20000), "profile": "checked"})
     ctx.traces += summ["cases"] - len(unb)
     ctx.evaluations += 4 * summ["cases"]
     ctx.nontrivial += sum(1 for c in cases if nontrivial_case(c))
